@@ -1,9 +1,329 @@
-/- C07 — placeholder while the correspondence is being established (replaced below) -/
-import Model.Constraint
+/-
+C07 — constraint verdicts follow the documented selector/quantifier semantics.
+
+FULL STATEMENT.  For every derivation tree `t`, constraint `c` of the modelled constraint language
+(all combinators, all selectors except `{…}`, atoms of `Model/Constraint.lean`), scope `σ` and local
+variables `ρ`:   `Constraint.check(t, σ, ρ)` answers `True`  ⇔  `denote c t σ ρ`,
+where `denote` is the documented meaning (expression truthy for every combination of matches; no match
+= nothing to violate; a raising combination fails; quantifiers bind for their body only), and the lazy
+evaluation gives the same verdict as the eager one.
+
+What is proved here, for the operational model `opFit` of `fitness()` in the variant the translator reads
+from the source on every run (`Generated.consCfg`):
+
+* `C07_op_eq_denote`     whenever `fitness()` returns (no exception escapes it), `success = denote`
+* `C07_check_true_iff`   `check = True ⇔ nothing escapes ∧ denote`                      (the full statement)
+* `C07_lazy_eq_eager`    an eager evaluation that returns ⇒ the lazy one returns the same verdict
+* `C07_scope_is_lexical` a quantifier leaves the caller's `scope` / `local_variables` as they were
+* one spec lemma per selector, `C07_no_match_vacuous`, `C07_raising_combination_fails`
+* the two fixed defects as counterexamples of the *other* variants (`decide`):
+  `C07_shared_dict_counterexample` (the "yq" case), `C07_skip_raise_counterexample` (`int(<x>) == 1` on "a1")
+
+Guard (what the real code rejects): an exception raised by a *selector* (`<a>[7]` IndexError,
+`<a>[0, 1]` TypeError) is not caught by `fitness()`; `check` then raises instead of answering.  The model
+has that branch (`opFit … = .error e`, `check = none`) and the theorems are stated under exactly
+`opFit … = .ok …`.  `{…}` selectors are excluded: every one of them raises ValueError in the real code
+(finding F12, signature `C07/selective-search`).
+
+The models (`Model/Search.lean`, `Model/Constraint.lean`) are tied to /repo by `harness/props/c07.py`.
+Every `theorem` in this file is an obligation audited with `#print axioms`.
+-/
+import Proofs.Constraint
+import Proofs.Search
 import Generated.Cons
 namespace FV
 
+/-! ## 0. the source's current variant (regenerated from /repo on every run) -/
+
+/-- the quantifiers bind on copies and a raising comparison side records 0.0: the variant for which
+    the theorems below are stated.  Reverting fix 0c4c2f46 or 90f1d189 makes this false. -/
 theorem C07_source_configuration :
     Generated.consCfgRead = true ∧ Generated.consCfg = OpCfg.fixed := by decide
+
+/-! ## 1. verdict = documented meaning -/
+
+/-- whenever `fitness()` returns, its `success` is the documented meaning — all combinators, all
+    trees, all scopes, eager or lazy in any mixture -/
+theorem C07_op_eq_denote (c : Cons) (t : Tree) (σ : Scope) (ρ : Locals) (f : Fit) (σ' : Scope) (ρ' : Locals)
+    (h : opFit Generated.consCfg c t σ ρ = .ok (f, σ', ρ')) : f.success = denote c t σ ρ := by
+  rw [C07_source_configuration.2] at h
+  exact (opFit_sound c t σ ρ f σ' ρ' h).2.2
+
+/-- the full statement, with the guard made explicit: `check` answers `True` exactly when no selector
+    exception escapes and the documented meaning holds -/
+theorem C07_check_true_iff (c : Cons) (t : Tree) (σ : Scope) (ρ : Locals) :
+    check Generated.consCfg c t σ ρ = some true ↔
+      ((∃ r, opFit Generated.consCfg c t σ ρ = .ok r) ∧ denote c t σ ρ = true) := by
+  unfold check
+  cases h : opFit Generated.consCfg c t σ ρ with
+  | error e => simp
+  | ok r =>
+    obtain ⟨f, σ', ρ'⟩ := r
+    have := C07_op_eq_denote c t σ ρ f σ' ρ' h
+    simp [this]
+
+/-- … and answers `False` exactly when nothing escapes and the documented meaning does not hold -/
+theorem C07_check_false_iff (c : Cons) (t : Tree) (σ : Scope) (ρ : Locals) :
+    check Generated.consCfg c t σ ρ = some false ↔
+      ((∃ r, opFit Generated.consCfg c t σ ρ = .ok r) ∧ denote c t σ ρ = false) := by
+  unfold check
+  cases h : opFit Generated.consCfg c t σ ρ with
+  | error e => simp
+  | ok r =>
+    obtain ⟨f, σ', ρ'⟩ := r
+    have := C07_op_eq_denote c t σ ρ f σ' ρ' h
+    simp [this]
+
+/-! ## 2. lazy = eager -/
+
+/-- if the eager evaluation returns, so does the lazy one, with the same verdict -/
+theorem C07_lazy_eq_eager (c : Cons) (t : Tree) (σ : Scope) (ρ : Locals) (f : Fit) (σ' : Scope) (ρ' : Locals)
+    (h : opFit Generated.consCfg (c.withLazy false) t σ ρ = .ok (f, σ', ρ')) :
+    ∃ f', opFit Generated.consCfg (c.withLazy true) t σ ρ = .ok (f', σ', ρ') ∧ f'.success = f.success := by
+  rw [C07_source_configuration.2] at h ⊢
+  obtain ⟨f', h'⟩ := lazy_ok c t σ ρ f σ' ρ' h
+  refine ⟨f', h', ?_⟩
+  rw [(opFit_sound _ t σ ρ f' σ' ρ' h').2.2, (opFit_sound _ t σ ρ f σ' ρ' h).2.2,
+      denote_withLazy, denote_withLazy]
+
+/-- whatever mixture of lazy flags: two evaluations that both return agree -/
+theorem C07_lazy_flags_irrelevant (c : Cons) (z z' : Bool) (t : Tree) (σ : Scope) (ρ : Locals)
+    (r r' : St)
+    (h : opFit Generated.consCfg (c.withLazy z) t σ ρ = .ok r)
+    (h' : opFit Generated.consCfg (c.withLazy z') t σ ρ = .ok r') : r.1.success = r'.1.success := by
+  obtain ⟨f, σ1, ρ1⟩ := r
+  obtain ⟨f', σ2, ρ2⟩ := r'
+  rw [C07_op_eq_denote _ t σ ρ f σ1 ρ1 h, C07_op_eq_denote _ t σ ρ f' σ2 ρ2 h', denote_withLazy, denote_withLazy]
+
+/-- non-vacuity: a conjunction whose second conjunct would *escape* (index out of range) — the lazy
+    evaluation returns `False` after the first conjunct, the eager one raises; this is why
+    `C07_lazy_eq_eager` goes from eager to lazy only -/
+def exLeaf (s : String) : Tree := .leaf (.text (s.toList.map Char.toNat))
+def exTree1 : Tree := .node "<start>" [.node "<a>" [exLeaf "x"], .node "<a>" [exLeaf "y"]]
+def exEscape : Cons :=
+  .conj false (.cons (.expr .ff []) (.cons (.cmp (.s .eq (.strOf (.ph 0)) (.lit [120])) [.item (.rule "<a>") [.idx 3]]) .nil))
+
+theorem C07_lazy_may_return_where_eager_raises :
+    check OpCfg.fixed (exEscape.withLazy true) exTree1 [] [] = some false ∧
+    check OpCfg.fixed (exEscape.withLazy false) exTree1 [] [] = none := by decide
+
+/-! ## 3. scopes are lexical -/
+
+/-- a constraint evaluation — in particular a quantifier — hands the caller's `scope` and
+    `local_variables` back unchanged: what a quantifier binds is visible in its body only -/
+theorem C07_scope_is_lexical (c : Cons) (t : Tree) (σ : Scope) (ρ : Locals) (f : Fit) (σ' : Scope) (ρ' : Locals)
+    (h : opFit Generated.consCfg c t σ ρ = .ok (f, σ', ρ')) : σ' = σ ∧ ρ' = ρ := by
+  rw [C07_source_configuration.2] at h
+  exact ⟨(opFit_sound c t σ ρ f σ' ρ' h).1, (opFit_sound c t σ ρ f σ' ρ' h).2.1⟩
+
+/-- the "yq" case: `all(all(str(<b>) == "y" for <b> in *<a>.<b>) for <a> in *<start>.<a>)` -/
+def yqTree : Tree :=
+  .node "<start>" [.node "<a>" [.node "<b>" [exLeaf "y"]], .node "<a>" [.node "<b>" [exLeaf "q"]]]
+def yqCons : Cons :=
+  .all false (.nt "<a>") (.star (.attr (.rule "<start>") (.rule "<a>")))
+    (.all false (.nt "<b>") (.star (.attr (.rule "<a>") (.rule "<b>")))
+      (.cmp (.s .eq (.strOf (.ph 0)) (.lit [121])) [.rule "<b>"]))
+
+/-- with the quantifiers writing into the caller's dictionary (the code before fix 0c4c2f46) the inner
+    binding of `<b>` survives into the second outer iteration, `<a>.<b>` resolves to the stale `<b>`, and
+    "yq" is accepted although its meaning is false; the copying variant rejects it -/
+theorem C07_shared_dict_counterexample :
+    check ⟨.shared, false⟩ yqCons yqTree [] [] = some true ∧
+    denote yqCons yqTree [] [] = false ∧
+    check OpCfg.fixed yqCons yqTree [] [] = some false := by decide
+
+/-- `<x> <x>` with `int(<x>) == 1` on "a1" -/
+def a1Tree : Tree := .node "<start>" [.node "<x>" [exLeaf "a"], .node "<x>" [exLeaf "1"]]
+def a1Cons : Cons := .cmp (.i .eq (.intOf (.ph 0)) (.lit 1)) [.rule "<x>"]
+
+/-- with a raising comparison side skipped (the code before fix 90f1d189) "a1" is accepted although the
+    combination `<x> = "a"` raises; recording 0.0 rejects it -/
+theorem C07_skip_raise_counterexample :
+    check ⟨.copy, true⟩ a1Cons a1Tree [] [] = some true ∧
+    denote a1Cons a1Tree [] [] = false ∧
+    check OpCfg.fixed a1Cons a1Tree [] [] = some false := by decide
+
+/-! ## 4. selectors (docs/Paths.md) -/
+
+/-- `<x>`: every `<x>` node of the tree (reached through non-terminals), or — inside a quantifier that
+    binds `<x>` — just the bound tree -/
+theorem C07_sel_rule (s : String) (t : Tree) (σ : Scope) :
+    (Search.rule s).find t σ =
+      match σ.lookup s with
+      | some v => .ok [.tree v]
+      | none => .ok ((t.findAll s).map .tree) := by
+  simp only [Search.find, Search.findG]
+  cases σ.lookup s <;> simp
+
+/-- the nodes an unscoped `<x>` finds are exactly the `<x>`-labelled nodes within the tree -/
+theorem C07_sel_rule_matches (s : String) (t u : Tree) :
+    u ∈ t.findAll s ↔ (Tree.Within u t ∧ u.sym = .nt s) := Tree.mem_findAll s t u
+
+/-- `B.A`: the direct children `A` of every match of `B` -/
+theorem C07_sel_attr (b a : Search) (t : Tree) (σ : Scope) :
+    (Search.attr b a).find t σ =
+      match b.find t σ with
+      | .error e => .error e
+      | .ok bs => flatMapE (fun u => a.findDirect u σ) (allTrees bs) := by
+  simp only [Search.find, Search.findDirect, Search.findG]
+  cases Search.findG false b t σ <;> rfl
+
+theorem C07_sel_direct_child (s : String) (u : Tree) :
+    (Search.rule s).findDirect u [] = .ok ((u.kids.filter (fun k => k.sym = .nt s)).map .tree) := by
+  simp [Search.findDirect, Search.findG, Tree.findDirect]
+
+/-- `B..A`: all `A` within every match of `B` -/
+theorem C07_sel_desc (b a : Search) (t : Tree) (σ : Scope) :
+    (Search.desc b a).find t σ =
+      match b.find t σ with
+      | .error e => .error e
+      | .ok bs => flatMapE (fun u => a.find u σ) (allTrees bs) := by
+  simp only [Search.find, Search.findG]
+  cases Search.findG false b t σ <;> rfl
+
+/-- `<foo>..<bar>` includes `<foo>.<bar>` -/
+theorem C07_sel_desc_includes_attr (s : String) (t u : Tree) (h : u ∈ t.findDirect s) : u ∈ t.findAll s :=
+  Tree.findDirect_subset_findAll s t u h
+
+/-- `B[…]`: the item of every match of `B` -/
+theorem C07_sel_item (b : Search) (sl : List Slc) (t : Tree) (σ : Scope) :
+    (Search.item b sl).find t σ =
+      match b.find t σ with
+      | .error e => .error e
+      | .ok bs => mapE (fun u => match u.getItem sl with
+                                 | .error e => .error e
+                                 | .ok x => .ok (Cont.tree x)) (allTrees bs) := by
+  simp only [Search.find, Search.findG]
+  cases Search.findG false b t σ <;> rfl
+
+/-- `<foo>[N]` is the N-th child, from zero -/
+theorem C07_sel_index (t : Tree) (i : Nat) (h : i < t.kids.length) :
+    t.getItem [.idx (i : Int)] = .ok t.kids[i] := by
+  simp [Tree.getItem, Tree.pyIndex_nonneg _ _ h]
+
+/-- negative indexes count from the end: `<foo>[-1]` is the last child -/
+theorem C07_sel_index_negative (t : Tree) (k : Nat) (h : k < t.kids.length) :
+    t.getItem [.idx (-((k : Int) + 1))] = .ok (t.kids[t.kids.length - 1 - k]'(by omega)) := by
+  simp [Tree.getItem, Tree.pyIndex_neg _ _ h]
+
+/-- an index outside the children raises (IndexError escapes `find`) -/
+theorem C07_sel_index_out_of_range (t : Tree) (i : Int)
+    (h : (t.kids.length : Int) ≤ i ∨ i < -(t.kids.length : Int)) : t.getItem [.idx i] = .error .index := by
+  simp [Tree.getItem, Tree.pyIndex_out_of_range _ _ h]
+
+/-- `<name>[n:m]` is a new unnamed root over the children `n … m-1` -/
+theorem C07_sel_slice (t : Tree) (n m : Nat) (hn : n ≤ m) (hm : m ≤ t.kids.length) :
+    t.getItem [.slice (some (n : Int)) (some (m : Int)) none]
+      = .ok (.mk .slice none none ((t.kids.drop n).take (m - n))) := by
+  have h1 : min n t.kids.length = n := Nat.min_eq_left (by omega)
+  have h2 : min m t.kids.length = m := Nat.min_eq_left hm
+  simp [Tree.getItem, Tree.pySlice_nat, h1, h2]
+
+/-- `<name>[:i]` + `<name>[i:]` = `<name>` -/
+theorem C07_sel_slice_split (t : Tree) (i : Nat) :
+    ∃ a b, t.getItem [.slice none (some (i : Int)) none] = .ok (.mk .slice none none a) ∧
+           t.getItem [.slice (some (i : Int)) none none] = .ok (.mk .slice none none b) ∧
+           a ++ b = t.kids :=
+  ⟨t.kids.take i, t.kids.drop i, by simp [Tree.getItem, Tree.pySlice_prefix],
+    by simp [Tree.getItem, Tree.pySlice_suffix], List.take_append_drop i t.kids⟩
+
+/-- `*B`: one collection holding every match of `B` -/
+theorem C07_sel_star (b : Search) (t : Tree) (σ : Scope) :
+    (Search.star b).find t σ =
+      match b.find t σ with
+      | .error e => .error e
+      | .ok bs => .ok [.list (allTrees bs)] := by
+  simp only [Search.find, Search.findG]
+  cases Search.findG false b t σ <;> rfl
+
+/-- a quantifier over `*B` binds each match of `B` in turn -/
+theorem C07_sel_star_quantify (b : Search) (t : Tree) (σ : Scope) :
+    (Search.star b).quantify t σ =
+      match b.find t σ with
+      | .error e => .error e
+      | .ok bs => .ok (allTrees bs) := by
+  simp only [Search.quantify]
+  cases b.find t σ <;> rfl
+
+/-- `|B|` / `len(*B)`: the number of matches -/
+theorem C07_sel_len (b : Search) (t : Tree) (σ : Scope) (bs : List Cont) (h : b.find t σ = .ok bs) :
+    (Search.len b).find t σ = .ok [.len (allTrees bs)] ∧
+    (Cont.len (allTrees bs)).evaluate = .int (allTrees bs).length := by
+  simp only [Search.find, Search.findG] at h ⊢
+  simp [h, Cont.evaluate]
+
+/-! ## 5. no match = nothing to violate; a raising combination fails -/
+
+/-- if one of the symbols a constraint mentions has no match, the constraint holds -/
+theorem C07_no_match_vacuous (e : BExpr) (ss : List Search) (t : Tree) (σ : Scope) (ρ : Locals)
+    (ms : List (List Cont)) (hms : mapE (fun s => s.find t σ) ss = .ok ms) (hempty : [] ∈ ms) :
+    denote (.expr e ss) t σ ρ = true ∧ check Generated.consCfg (.expr e ss) t σ ρ = some true := by
+  have hd : denote (.expr e ss) t σ ρ = true := by
+    simp [denote, combinations, hms, product_nil_of_mem_nil ms hempty]
+  refine ⟨hd, ?_⟩
+  rw [C07_check_true_iff]
+  refine ⟨?_, hd⟩
+  rw [C07_source_configuration.2]
+  simp [opFit, combinations, hms]
+
+/-- the same for comparisons -/
+theorem C07_no_match_vacuous_cmp (c : Cmp) (ss : List Search) (t : Tree) (σ : Scope) (ρ : Locals)
+    (ms : List (List Cont)) (hms : mapE (fun s => s.find t σ) ss = .ok ms) (hempty : [] ∈ ms) :
+    denote (.cmp c ss) t σ ρ = true ∧ check Generated.consCfg (.cmp c ss) t σ ρ = some true := by
+  have hd : denote (.cmp c ss) t σ ρ = true := by
+    simp [denote, combinations, hms, product_nil_of_mem_nil ms hempty]
+  refine ⟨hd, ?_⟩
+  rw [C07_check_true_iff]
+  refine ⟨?_, hd⟩
+  rw [C07_source_configuration.2]
+  simp [opFit, combinations, hms]
+
+/-- a universal quantifier over nothing holds, an existential one does not -/
+theorem C07_quantifier_over_nothing (lz : Bool) (b : Bound) (s : Search) (body : Cons) (t : Tree) (σ : Scope)
+    (ρ : Locals) (h : s.quantify t σ = .ok []) :
+    denote (.all lz b s body) t σ ρ = true ∧ denote (.any lz b s body) t σ ρ = false := by
+  simp [denote, h]
+
+/-- a combination whose evaluation raises makes the constraint fail: meaning and verdict -/
+theorem C07_raising_combination_fails (e : BExpr) (ss : List Search) (t : Tree) (σ : Scope) (ρ : Locals)
+    (cbs : List (List Cont)) (hc : combinations ss t σ = .ok cbs)
+    (cb : List Cont) (hcb : cb ∈ cbs) (x : EvErr) (hx : e.eval ⟨cb, ρ⟩ = .error x) :
+    denote (.expr e ss) t σ ρ = false ∧ check Generated.consCfg (.expr e ss) t σ ρ = some false := by
+  have hd : denote (.expr e ss) t σ ρ = false := by
+    simp only [denote, hc]
+    rw [Bool.eq_false_iff]
+    intro hall
+    have := List.all_eq_true.1 hall cb hcb
+    simp [hx, isOkTrue] at this
+  refine ⟨hd, ?_⟩
+  rw [C07_check_false_iff]
+  refine ⟨?_, hd⟩
+  rw [C07_source_configuration.2]
+  simp [opFit, hc]
+
+/-- the same for a comparison one of whose sides raises (the code after fix 90f1d189) -/
+theorem C07_raising_comparison_fails (c : Cmp) (ss : List Search) (t : Tree) (σ : Scope) (ρ : Locals)
+    (cbs : List (List Cont)) (hc : combinations ss t σ = .ok cbs)
+    (cb : List Cont) (hcb : cb ∈ cbs) (x : EvErr) (hx : c.eval ⟨cb, ρ⟩ = .error x) :
+    denote (.cmp c ss) t σ ρ = false ∧ check Generated.consCfg (.cmp c ss) t σ ρ = some false := by
+  have hd : denote (.cmp c ss) t σ ρ = false := by
+    simp only [denote, hc]
+    rw [Bool.eq_false_iff]
+    intro hall
+    have := List.all_eq_true.1 hall cb hcb
+    simp [hx, isOkTrue] at this
+  refine ⟨hd, ?_⟩
+  rw [C07_check_false_iff]
+  refine ⟨?_, hd⟩
+  rw [C07_source_configuration.2]
+  simp [opFit, hc]
+
+/-- non-vacuity of the hypotheses above: `int(<x>) == 1` on "a1" has a combination that raises -/
+example : ∃ cbs cb x, combinations [.rule "<x>"] a1Tree [] = .ok cbs ∧ cb ∈ cbs ∧
+    (Cmp.i .eq (.intOf (.ph 0)) (.lit 1)).eval ⟨cb, []⟩ = .error x :=
+  ⟨_, [.tree (.node "<x>" [exLeaf "a"])], .pyValue, rfl, List.Mem.head _, by decide⟩
+
+/-- non-vacuity of `C07_op_eq_denote` & co.: the fixed model returns on the documented examples -/
+example : ∃ r, opFit OpCfg.fixed yqCons yqTree [] [] = .ok r := ⟨_, rfl⟩
 
 end FV
